@@ -242,6 +242,20 @@ pub fn run(cfg: &Cfg, rep: &mut Report) {
                     }
                 }};
             }
+            {
+                // a finite number that its suffix multiplier scales beyond the storage type: if the conversion refuses it,
+                // that is a value fault (out of range)
+                let (l, sfx): (&[u8], &[u8]) = *rng.pick(&[(&b"1E36"[..], &b"KV"[..]), (b"-3E35", b"MAV"), (b"3E38", b"KV"), (b"9E37", b"MAV"), (b"1E38", b"GV")]);
+                let r: Result<ElectricPotential, Error> = ElectricPotential::try_from(Token::DecimalNumericSuffixProgramData(l, sfx));
+                match r {
+                    Err(e) => expect_class(ctx, "number scaled beyond the storage type by its suffix multiplier", "out-of-range", Some(e.get_code()), false),
+                    Ok(_) => ctx.count("cause.multiplier-overflow.accepted(no verdict here)"),
+                }
+                let r: Result<Frequency, Error> = Frequency::try_from(Token::DecimalNumericSuffixProgramData(b"2E35", b"GHZ"));
+                if let Err(e) = r {
+                    expect_class(ctx, "number scaled beyond the storage type by its suffix multiplier", "out-of-range", Some(e.get_code()), false);
+                }
+            }
             undefined_suffix!(ElectricPotential, "voltage", [b"HZ", b"S", b"W", b"VV", b"OHM", b"KVV", b"DBW"]);
             undefined_suffix!(Frequency, "frequency", [b"V", b"S", b"HZZ", b"KH", b"DBM"]);
             undefined_suffix!(Time, "time", [b"HZ", b"V", b"SS", b"MSEC", b"H"]);
